@@ -1633,6 +1633,42 @@ def range_cache_scenarios():
 # C18: "break and continue leave no iteration state behind": loop bodies whose per-pass variables are captured by closures
 # that outlive the pass; the pass is left by break / continue / normal end / return; a LATER loop (whose hidden iterator
 # and loop variable reuse the same stack slots) must be unaffected when the old closures are called and written through
+def long_run_scenarios():
+    """adapters and loops over sequences far longer than the call-frame budget (64): a long run of elements rejected by a filter, long
+    map / filter chains, reduce and collect over them, a for loop with continue on almost every pass - the cost per element is constant,
+    nothing accumulates (frames, handlers, stack slots) from one element to the next."""
+    out = []
+    R = lambda lo, hi: {"k": "range", "l": lit(lo), "r": lit(hi)}
+    for n, form in itertools.product((70, 130, 200), ("filter-tail", "filter-none", "filter-map", "reduce", "for-continue", "vec")):
+        b = Builder()
+        if form == "filter-tail":
+            b.print(inv(inv(inv(R(0, n), "iter"), "filter", b.lam(["x"], lambda: bin_(">", b.v("x"), lit(n - 4)))), "collect"))
+        elif form == "filter-none":
+            b.print(inv(inv(inv(R(0, n), "iter"), "filter", b.lam(["x"], lambda: bin_("<", b.v("x"), lit(0)))), "collect"))
+        elif form == "filter-map":
+            b.print(inv(inv(inv(inv(R(0, n), "iter"), "map", b.lam(["x"], lambda: bin_("*", b.v("x"), lit(2)))), "filter", b.lam(["y"], lambda: bin_(">=", b.v("y"), lit(2 * n - 4)))), "collect"))
+        elif form == "reduce":
+            b.print(inv(inv(inv(R(0, n), "iter"), "filter", b.lam(["x"], lambda: bin_("==", bin_("%", b.v("x"), lit(n - 1)), lit(0)))), "reduce", b.lam(["a", "x"], lambda: bin_("+", b.v("a"), b.v("x"))), lit(1000)))
+        elif form == "for-continue":
+            b.var("seen", vec())
+            b.for_("i", inv(inv(R(0, n), "iter"), "filter", b.lam(["x"], lambda: bin_(">", b.v("x"), lit(n - 6)))))
+            b.if_(bin_("==", bin_("%", b.v("i"), lit(2)), lit(0))); b.continue_(); b.end()
+            b.expr(inv(b.v("seen"), "push", b.v("i")))
+            b.end()
+            b.print(b.v("seen"))
+        else:
+            if n > 130:
+                continue
+            b.var("v", vec(*[lit(i % 7) for i in range(n)]))
+            b.var("hits", lit(0))
+            b.for_("e", inv(inv(b.v("v"), "iter"), "filter", b.lam(["x"], lambda: bin_("==", b.v("x"), lit(6)))))
+            b.expr(b.assign("hits", bin_("+", b.v("hits"), lit(1))))
+            b.end()
+            b.print(b.v("hits"))
+        out.append(("longrun:%d:%s" % (n, form), b.toks))
+    return out
+
+
 def translated_range_scenarios(K):
     """ranges, their iteration, identity and slicing are translation invariant: the same program with every range bound moved up by K
     prints the same (differences to K are printed, never K itself).  The reference machine runs the K = 1000 version; the
